@@ -4,7 +4,8 @@
    Spec/ThetaLayout.v is the format as the Java/C++ libraries define it (DESIGN.md Appendix A),
    written independently of the Rust code: [dec_spec sh bytes] the decoder to the abstract compact
    sketch [tabs], [enc_spec v a] the encoder of every variant (V1, V2, V3 with/without the
-   SINGLE_ITEM flag, V4: one big-endian bit stream of entry_bits-bit deltas). *)
+   SINGLE_ITEM flag, V4: one big-endian bit stream of entry_bits-bit deltas).  [dec_spec] rejects a
+   preamble-longs byte outside 1..3 (as the crate does), then reads the image ([dec_spec_body]). *)
 From DS Require Import Base.Prelude Base.BitExp Model.Theta Model.ThetaCodec Spec.ThetaLayout.
 From DS Require Import Proofs.ThetaCodec Proofs.ThetaLayoutProofs.
 Open Scope N_scope.
@@ -13,11 +14,11 @@ Open Scope N_scope.
    writers emit *)
 Theorem c12_theta_writer_conforms :
   forall sh c, c_wf sh c -> dec_spec sh (c_serialize c) = Some (abs_of c).
-Proof. exact writer_conforms. Qed.
+Proof. exact ep_writer_conforms. Qed.
 
 Theorem c12_theta_compressed_writer_conforms :
   forall sh c bs, c_wf sh c -> c_serialize_compressed c = Ok bs -> dec_spec sh bs = Some (abs_of c).
-Proof. exact compressed_writer_conforms. Qed.
+Proof. exact ep_compressed_writer_conforms. Qed.
 
 (* more precisely the emitted bytes ARE the specification's encoding: the blocks of 8 deltas
    (unrolled packers) followed by the BitPacker tail are one continuous bit stream *)
@@ -31,18 +32,18 @@ Proof. exact model_v4_is_spec. Qed.
 
 (* dec_spec_enc_spec: the specification is consistent (its decoder inverts its encoder) *)
 Theorem c12_theta_spec_roundtrip_v3 :
-  forall sh sf a, abs_okb a = true -> dec_spec sh (enc_v3 sf a) = Some a.
+  forall sh sf a, abs_okb a = true -> dec_spec_body sh (enc_v3 sf a) = Some a.
 Proof. exact spec_roundtrip_v3. Qed.
 
 Theorem c12_theta_spec_roundtrip_v4 :
-  forall sh a, abs_okb a = true -> expressible V4 a = true -> dec_spec sh (enc_v4 a) = Some a.
+  forall sh a, abs_okb a = true -> expressible V4 a = true -> dec_spec_body sh (enc_v4 a) = Some a.
 Proof. exact spec_roundtrip_v4. Qed.
 
 (* ... for every variant (serVer 1 and 2 included) *)
 Theorem c12_theta_spec_roundtrip :
   forall sh v a, abs_okb a = true -> expressible v a = true -> a_seed_hash a = sh ->
   dec_spec sh (enc_spec v a) = Some a.
-Proof. exact spec_roundtrip. Qed.
+Proof. exact ep_spec_roundtrip. Qed.
 
 (* the sequential reading of the bit stream (what dec_spec executes) is the positional one *)
 Theorem c12_theta_fields_seq_field :
